@@ -42,6 +42,7 @@ type Actor struct {
 	Conn *Conn
 	Who  string
 	IsRT bool
+	UA   string
 
 	Cur      *Call // outstanding (or last) call on Conn
 	Calls    []*Call
@@ -112,7 +113,11 @@ func (a *Actor) Next() *Call {
 	if a.st != "working" {
 		a.st = "polling"
 	}
-	c := a.start("rt-next", "GET", rtBase+"/invocation/next", map[string]string{"User-Agent": "sim-runtime/1.0"}, nil)
+	ua := a.UA
+	if ua == "" {
+		ua = "sim-runtime/1.0"
+	}
+	c := a.start("rt-next", "GET", rtBase+"/invocation/next", map[string]string{"User-Agent": ua}, nil)
 	a.w.absorb()
 	return c
 }
